@@ -273,6 +273,20 @@ CLAIMED["C07"] = {
     "design": "5 C07",
 }
 
+CLAIMED["C11"] = {
+    "text": "Lifetime.tla: cells own or merely borrow an object (as Object_Data::get / Handle_Return decide), owners are named variables or temporaries "
+            "of the full expression, binders keep the cell (:=, capture, bind(), push_back_ref, attribute :=, global, C++-kept shared_ptr) or clone the "
+            "object (=, push_back, attribute =), events end the owner's life (statement end, scope exit, exception, function return, owner cleared / "
+            "re-seated). TLC checks OwningNeverDangles and DanglingOnlyByBorrow over every path and exports each with its verdict. Every path is "
+            "printed from templates and run (both parsers, evaluated twice) against an instrumented class whose registry records constructions, "
+            "destructions, touches after destruction, double destruction and instances alive after the engine is gone; model-safe paths also run "
+            "under ASan+UBSan with stack-use-after-return detection. Safe paths must be clean, nothing may leak or die twice on any path.",
+    "note": "Exhaustive over the paths of the model (18 sources x 11 binders x 6 events, applicable combinations). The dangling verdicts are the "
+            "borrowed-reference escapes: 12 known findings, one per source of bare references. Reference cycles and other threads' per-thread state are outside the property.",
+    "technique": "TLC model checking of the ownership machine + TLC-enumerated paths replayed into the implementation with an instrumented class (registry) under plain and ASan/UBSan builds",
+    "design": "5 C11",
+}
+
 PENDING_REASON = "check not built yet in this session; planned (see DESIGN.md section 8)"
 
 ALL = [f"C{i:02d}" for i in range(1, 21)]
